@@ -61,6 +61,7 @@ Fails(e) == CASE e.op = "schema_parse" -> FailsParse(e)
               [] e.op = "reg_use" -> FailsReg(e)
               [] e.op = "schema_bad" -> FailsBad(e)
               [] e.op = "schemagen" -> FailsGen(e)
+              [] e.op = "driver_crash" -> <<"the process using the library was killed by the Go runtime (memory corruption): " \o e.detail>>
               [] OTHER -> <<"unknown event">>
 
 Init == l = 1 /\ rej = <<>>
